@@ -45,6 +45,14 @@ def open_templates():
                     continue
                 name = 'open:%s' % oname
                 out.append((name, pre + od + post))
+    # the operator is the LAST descriptor of the template (nothing follows it in this subset: whatever it sets is still set
+    # when the subset ends), after templates whose first member is an element, a sequence, a replication or an operator
+    firsts = [[G.N7], [301001, G.NS], [101002, G.N7], [101000, G.Z8, G.NS], [201130, G.NS, 201000, G.S1]]
+    for pre in firsts:
+        for oname, od in ops:
+            if oname in ('203open',):
+                continue
+            out.append(('open:last-%s' % oname, pre + od))
     # closed constructs followed by nothing special: controls
     out.append(('ctrl', [G.N7, 201130, G.NS, 201000, G.N7]))
     # 222000 with the QA elements last
